@@ -94,7 +94,13 @@ class Trainer:
             np.arange(len(weights)), weights, ess=self.TRIM_ESS, bins=self.TRIM_BINS
         )
 
-        if self.clustering and (iter_val % self.cluster_every == 0 or iter_val == 0):
+        refit = iter_val % self.cluster_every == 0 or iter_val == 0
+        if self.clustering and not refit and self.clusterer.n_clusters_ == 0:
+            # The model has never been fitted (first annealing iteration that is
+            # not a multiple of cluster_every, or a resumed run): fit it now.
+            refit = True
+
+        if self.clustering and refit:
             # Fit clustering model and mode statistics
             u = self.state.get_history("u", flat=True)[trim_idx]
             self.clusterer.fit(u, weights_trimmed)
